@@ -193,6 +193,31 @@ static void case_xof(uint64_t sub, int a, int kind)
     in_free(in); in_free(custom); gfree(out); gfree(out2); free(exp);
 }
 
+/* ascon_xof_pad / ascon_xofa_pad: documented as "absorbs enough zeroes to pad the input to the next multiple of the rate" */
+static void case_xofpad(uint64_t sub, int a)
+{
+    size_t l1 = sub <= 40 ? (size_t)sub : rng_below(R, 100), l2 = rng_below(R, 40), outlen = 1 + rng_below(R, 60);
+    size_t z = (8 - l1 % 8) % 8, total = l1 + z + l2;
+    uint8_t *in = (uint8_t *)malloc(total + 1), *out = (uint8_t *)galloc(outlen, 1), *exp = (uint8_t *)malloc(outlen);
+    size_t sz = a ? sizeof(ascon_xofa_state_t) : sizeof(ascon_xof_state_t);
+    void *st = galloc(sz, 1);
+    xofcfg_t c; memset(&c, 0, sizeof(c)); c.a = a;
+    vf_progress("case=%llu %s-pad l1=%zu l2=%zu", (unsigned long long)vf_case, a ? "xofa" : "xof", l1, l2);
+    rng_bytes(R, in, total); memset(in + l1, 0, z);
+    ref_cxof(a, exp, outlen, 0, 0, 0, 0, 0, in, total);
+    xof_init_cfg(a, st, &c, 0);
+    xof_absorb(a, st, in, l1);
+    if (!a) ascon_xof_pad((ascon_xof_state_t *)st); else ascon_xofa_pad((ascon_xofa_state_t *)st);
+    if (rng_below(R, 2)) { if (!a) ascon_xof_pad((ascon_xof_state_t *)st); else ascon_xofa_pad((ascon_xofa_state_t *)st); } /* idempotent when aligned */
+    xof_absorb(a, st, in + l1 + z, l2);
+    xof_squeeze(a, st, out, outlen);
+    xof_free(a, st);
+    vf_eq("C03", a ? "xofa:pad" : "xof:pad", "absorb, pad, absorb vs absorbing zeroes to the rate boundary", out, exp, outlen, "\"l1\":%zu,\"l2\":%zu,\"outlen\":%zu", l1, l2, outlen);
+    vf_out(out, outlen);
+    vf_distinct("%s-pad|l1mod%zu|l2%s", a ? "xofa" : "xof", l1 % 8, l2 ? "y" : "0");
+    free(in); free(exp); gfree(out); gfree(st);
+}
+
 /* ---------------------------------------------------------------- HASH / HASHA */
 static void case_hash(uint64_t sub, int a)
 {
@@ -517,6 +542,7 @@ static void case_pbkdf2(uint64_t sub, int hmac)
 typedef struct { const char *prop; void (*fn)(uint64_t sub, int a, int b); int a, b; } alg_t;
 static void w_hash(uint64_t s, int a, int b) { (void)b; case_hash(s, a); }
 static void w_xof(uint64_t s, int a, int b) { case_xof(s, a, b); }
+static void w_xofpad(uint64_t s, int a, int b) { (void)b; case_xofpad(s, a); }
 static void w_prf(uint64_t s, int a, int b) { (void)b; case_prf(s, a); }
 static void w_prfshort(uint64_t s, int a, int b) { (void)a; (void)b; case_prf_short(s); }
 static void w_mac(uint64_t s, int a, int b) { (void)a; (void)b; case_mac(s); }
@@ -527,7 +553,7 @@ static void w_pbkdf2(uint64_t s, int a, int b) { (void)b; case_pbkdf2(s, a); }
 
 static const alg_t ALGS[] = {
     {"C03", w_hash, 0, 0}, {"C03", w_hash, 1, 0},
-    {"C03", w_xof, 0, 0}, {"C03", w_xof, 1, 0}, {"C03", w_xof, 0, 1}, {"C03", w_xof, 1, 1}, {"C03", w_xof, 0, 2}, {"C03", w_xof, 1, 2},
+    {"C03", w_xof, 0, 0}, {"C03", w_xof, 1, 0}, {"C03", w_xof, 0, 1}, {"C03", w_xof, 1, 1}, {"C03", w_xof, 0, 2}, {"C03", w_xof, 1, 2}, {"C03", w_xofpad, 0, 0}, {"C03", w_xofpad, 1, 0},
     {"C04", w_prf, 0, 0}, {"C04", w_prf, 1, 0}, {"C04", w_prfshort, 0, 0}, {"C04", w_mac, 0, 0},
     {"C04", w_hmac, 0, 0}, {"C04", w_hmac, 1, 0}, {"C04", w_kmac, 0, 0}, {"C04", w_kmac, 1, 0},
     {"C05", w_kmac, 0, 1}, {"C05", w_kmac, 1, 1}, {"C05", w_hkdf, 0, 0}, {"C05", w_hkdf, 1, 0}, {"C05", w_pbkdf2, 0, 0}, {"C05", w_pbkdf2, 1, 0},
